@@ -88,6 +88,8 @@ type StreamM struct {
 	SrvFin    bool
 	SrvRst    bool
 	SrvRstSt  uint32
+	// a RST_STREAM arrived that may also be the answer to frames sent before the SYN_STREAM
+	SrvRstMaybe bool
 
 	Sent         int64 // DATA bytes sent on this id
 	CertAccepted int64 // of those, bytes in frames the server certainly accepted
@@ -95,6 +97,7 @@ type StreamM struct {
 	WUSent       int64 // sum of stream WINDOW_UPDATEs sent
 	Recv         int64 // DATA bytes received
 
+	PreSyn     int    // frames sent on this id before its SYN_STREAM (their RST_STREAMs may arrive after it)
 	LastSend   int    // log seq of the newest frame sent on this stream
 	MinInit    int64  // smallest SETTINGS_INITIAL_WINDOW_SIZE of ours that may have applied to this stream
 	Tainted    string // non-empty: stream state at the server is uncertain
@@ -149,6 +152,7 @@ type Model struct {
 	rstLog    []rstRec
 
 	lastSendAny int
+	preSyn      map[uint32]int // frames sent on an id before (without) its SYN_STREAM
 
 	// observation counters
 	Obs map[string]int64
@@ -164,7 +168,7 @@ func NewModel(h HandlerView, maxStreams int) *Model {
 		H: h, MaxStreams: maxStreams,
 		streams: map[uint32]*StreamM{}, byToken: map[int]*StreamM{},
 		peerInit: DefaultWindow, initSettled: DefaultWindow, initEverMin: DefaultWindow,
-		pingSent: map[uint32]int{}, lastPong: -1,
+		pingSent: map[uint32]int{}, lastPong: -1, preSyn: map[uint32]int{},
 		Respecting: true, badTokens: map[int]string{}, Obs: map[string]int64{},
 	}
 }
@@ -346,6 +350,10 @@ func (m *Model) NextSyn(info SynInfo) { m.nextSyn = &info }
 func (m *Model) onSend(ev *Event) {
 	if st := m.streams[ev.Stream]; st != nil && ev.Stream != 0 {
 		st.LastSend = ev.Seq
+	} else if ev.Stream != 0 && ev.Kind != KSynStream && ev.Kind != KGoAway {
+		// a frame on an id that has not been opened (yet): the server may
+		// answer it with a RST_STREAM that arrives after a later SYN_STREAM
+		m.preSyn[ev.Stream]++
 	}
 	m.lastSendAny = ev.Seq
 	switch ev.Kind {
@@ -411,7 +419,7 @@ func (m *Model) sendSyn(ev *Event) {
 		return
 	}
 	m.maxSynID = id
-	s := &StreamM{ID: id, Token: ev.Token, SynSeq: ev.Seq, LastSend: ev.Seq, HasBody: !ev.Fin(), DeclLen: info.DeclLen, DeliverCap: -1, MinInit: m.minInit()}
+	s := &StreamM{ID: id, Token: ev.Token, SynSeq: ev.Seq, LastSend: ev.Seq, HasBody: !ev.Fin(), DeclLen: info.DeclLen, DeliverCap: -1, MinInit: m.minInit(), PreSyn: m.preSyn[id]}
 	if ev.Fin() {
 		s.ClientFin = true
 	}
@@ -899,6 +907,13 @@ func (m *Model) recvRst(ev *Event) {
 	m.Obs[fmt.Sprintf("rst_recv_status_%d", ev.Status)]++
 	s := m.streams[ev.Stream]
 	if s == nil {
+		return
+	}
+	if s.PreSyn > 0 {
+		// may be the answer to a frame sent before the SYN_STREAM: says
+		// nothing certain about the stream
+		s.taint("rst-may-answer-frames-sent-before-syn")
+		s.SrvRstMaybe = true
 		return
 	}
 	if ev.Status == RstFlowControlError {
